@@ -25,10 +25,11 @@ def binaryF : String → Option (Int → Int → Int)
   | "multiply" => some (· * ·)
   | _ => none
 
-/-- `view.op.identity()` when the op has one, else 0 (eval_reduction l.235-242) -/
-def identityOf : String → Int
-  | "multiply" => 1
-  | _ => 0
+/-- `view.op.identity()` when the op has one (`meta::has_identity_v`); subtract has none -/
+def identityOf : String → Option Int
+  | "add" => some 0
+  | "multiply" => some 1
+  | _ => none
 
 def okVals (shape : String) (vals : List Int) : String :=
   s!"ok shape={shape} val={fmtInts vals}"
@@ -47,7 +48,7 @@ def handle : Handler := fun kind a =>
       let f ← (a.get? "op").bind unaryF
       let lanes ← a.nat "lanes"
       let arr ← arrOf a "shape" "layout" "data"
-      match simdUnary lanes (·.map f) f arr (List.replicate (prod arr.shape) 0) with
+      match simdEvalUnary lanes (·.map f) f arr (List.replicate (prod arr.shape) 0) with
       | some out => pure (okVals (fmtNats arr.shape) out)
       | none => pure "ub"
   | "c12.binary" => orBad do
@@ -56,7 +57,7 @@ def handle : Handler := fun kind a =>
       let l ← arrOf a "lshape" "llayout" "ldata"
       let r ← arrOf a "rshape" "rlayout" "rdata"
       if l.shape == r.shape then
-        match simdBinarySame N (List.zipWith f) f l r (List.replicate (prod l.shape) 0) with
+        match simdEvalBinarySame N (List.zipWith f) f l r (List.replicate (prod l.shape) 0) with
         | some out => pure (okVals (fmtNats l.shape) out)
         | none => pure "ub"
       else
@@ -64,7 +65,7 @@ def handle : Handler := fun kind a =>
         | [lr, lc], [rr, rc] =>
           let R := max lr rr
           let C := max lc rc
-          match simdBinary2d N (List.zipWith f) f l.data r.data lr lc rr rc C (List.replicate (R * C) 0) with
+          match simdEvalBinary2d N (List.zipWith f) f l r lr lc rr rc C (List.replicate (R * C) 0) with
           | some out => pure (okVals (fmtNats [R, C]) out)
           | none => pure "ub"
         | _, _ => pure "unsupported"
@@ -74,7 +75,7 @@ def handle : Handler := fun kind a =>
       let l ← arrOf a "lshape" "llayout" "ldata"
       let r ← arrOf a "rshape" "rlayout" "rdata"
       let os := l.shape ++ r.shape
-      match simdOuter N (List.zipWith f) f l.data r.data os l.shape r.shape (List.replicate (prod os) 0) with
+      match simdEvalOuter N (List.zipWith f) f l r (List.replicate (prod os) 0) with
       | some out => pure (okVals (fmtNats os) out)
       | none => pure "ub"
   | "c12.reduce" => orBad do
@@ -86,14 +87,14 @@ def handle : Handler := fun kind a =>
       let axis ← a.optInt "axis"
       match axis with
       | none =>
-        match simdReduceAll N (List.zipWith f) f 0 arr with
+        match simdEvalReduceAll N (List.zipWith f) f (identityOf opn) arr with
         | some v => pure (okVals (if keep == 0 then "num" else fmtNats (arr.shape.map (fun _ => 1))) [v])
         | none => pure "ub"
       | some ax =>
         let dim := arr.shape.length
         let axn : Nat := if ax < 0 then (dim - (-ax).toNat) else ax.toNat
         let outShape := if keep == 0 then arr.shape.eraseIdx axn else keepShape arr.shape axn
-        match simdReduceAxis N (List.zipWith f) f 0 (identityOf opn) arr ax with
+        match simdReduceAxis N (List.zipWith f) f (identityOf opn) arr ax with
         | some out => pure (okVals (fmtNats outShape) out)
         | none => pure "ub"
   | "c12.matmul" => orBad do
